@@ -1,8 +1,8 @@
 BOUNDS = ('operation histories: pre-state in {default, sized, sized-then-shrunk, moved-from} x one operation (quick) or two/three operations (thorough) out of 15 '
           '(recreate x3, copy/move assign both directions, swap, copy ctor, move ctor, self-assign, no-op recreate, converting copy/assign, shrink-in-place, assign from temporary); '
-          'allocators equal/unequal, propagate_on_container_move_assignment true/false, propagate_on_container_swap true/false; interleaved and planar rgb8; '
+          'allocators equal/unequal, propagate_on_container_move_assignment true/false, propagate_on_container_swap true/false; interleaved and planar rgb8; element lifetime with a counted element type whose k-th construction throws (k concrete: every point of the operation); '
           'fault point (k-th allocation of the history throws bad_alloc) concrete in {none,0,1,2}; dimensions/alignments concrete from a small grid; fill pixel, probe coordinates and written pixels symbolic')
-OUTSIDE = 'histories longer than 3 operations (no inductive argument is made); dimensions outside the grid; non-trivial element types (image<T> with user-defined T: element-lifetime clause not instantiated); any_image'
+OUTSIDE = 'histories longer than 3 operations (no inductive argument is made); dimensions outside the grid; any_image'
 ASSUMPTIONS = ['the checking allocator (chk_alloc) hands out exactly-sized blocks and records every allocate/deallocate in a ledger', 'swap between unequal non-propagating allocators is not exercised (precondition of swap)']
 OPS = {0: 'recreate', 1: 'recreate_fill', 2: 'recreate_alloc', 3: 'copy_assign', 4: 'move_assign', 5: 'swap', 6: 'copy_ctor', 7: 'move_ctor', 8: 'self_assign',
        9: 'recreate_same', 10: 'converting', 11: 'shrink', 12: 'assign_temp', 13: 'copy_assign_to_b', 14: 'move_assign_to_b'}
@@ -55,6 +55,15 @@ def queries(tier, seed):
         for k in range(60):
             o = [rnd.choice(pair_ops) for _ in range(3)]
             add((rnd.choice([0, 1]), rnd.choice([0, 1]), 1), rnd.choice([0, 1, 2]), o, rnd.choice([1, 2]), rnd.choice([-1, 0, 1, 2, 3]), SHAPES3[k % 3], 'thorough')
+    # element lifetime with a counted, non-trivial element type and a throwing element constructor
+    ELOPS = {1: 'fill_construct', 2: 'copy_construct', 3: 'copy_assign', 4: 'recreate_fill', 5: 'default_construct'}
+    for op, on in ELOPS.items():
+        for (w, h, al) in ((2, 2, 16), (2, 2, 0), (3, 2, 8), (1, 3, 0)):
+            n = {1: (w + 1) * h, 2: w * h, 3: (w + 1) * (h + 1) + w * h, 4: (w + 1) * (h + 1), 5: w * (h + 1)}[op]
+            for b in [-1] + list(range(0, n)):
+                quick = (w, h, al) in ((2, 2, 16), (2, 2, 0)) and (b in (-1, 0, 1, 2, 3, n - 1)) and op in (1, 2, 3, 4)
+                qs.append(Q('elem/%s/%dx%d_a%d/throw_at_%s' % (on, w, h, al, 'none' if b < 0 else b), 'C10/elem.cpp', 'h_elem', params=[op, w, h, al, b], cdefs=dict(VP_RESIDUE=5),
+                            unwind=16, tier='quick' if quick else 'thorough', timeout=300, shape=dict(op=on, w=w, h=h, align=al, throw_at=b)))
     names = set(); out = []
     for q in qs:
         if q.name in names: continue
